@@ -65,14 +65,22 @@ func VerifHarness_C17_main() {
 	fixed := vParam("fixed")   // 0: random placement, otherwise -F value
 	rounds := vPick("rounds", 1, vParam("maxRounds"))
 	size, procs, cycles, length := 16, 3, 6, 4 // 6 cycles: the two warriors cannot reach each other
-	i1 := vPick("w1", 0, len(vWarriorTexts)-1)
+	texts, texts88 := vWarriorTexts, vWarriorTexts88
+	if fixed != 0 && nw == 2 {
+		// with a fixed placement the first warrior may also be a bomber aimed
+		// exactly at the second one's first cell: the battle's outcome then
+		// depends on the placement actually used and on the write distance
+		texts = append(append([]string(nil), texts...), fmt.Sprintf("mov.i $2, $%d\njmp $-1\ndat #0, #0\n", fixed))
+		texts88 = append(append([]string(nil), texts88...), fmt.Sprintf("mov $2, $%d\njmp $-1\ndat #0, #0\n", fixed))
+	}
+	i1 := vPick("w1", 0, len(texts)-1)
 	i2 := 0
 	if nw == 2 {
 		i2 = vPick("w2", 0, len(vWarriorTexts)-2)
 	}
-	t1, t2 := vWarriorTexts[i1], vWarriorTexts[i2]
+	t1, t2 := texts[i1], texts[i2]
 	if use88 {
-		t1, t2 = vWarriorTexts88[i1], vWarriorTexts88[i2]
+		t1, t2 = texts88[i1], texts88[i2]
 	}
 
 	var cfg gmars.SimulatorConfig
@@ -92,7 +100,10 @@ func VerifHarness_C17_main() {
 			vSetFlagBool("8", true)
 			mode = gmars.ICWS88
 		}
-		cfg = gmars.NewQuickConfig(mode, gmars.Address(size), gmars.Address(procs), gmars.Address(cycles), gmars.Address(length))
+		// what the options mean, written out field by field (not through
+		// the library's own constructor)
+		cfg = gmars.SimulatorConfig{Mode: mode, CoreSize: gmars.Address(size), Processes: gmars.Address(procs), Cycles: gmars.Address(cycles),
+			ReadLimit: gmars.Address(size), WriteLimit: gmars.Address(size), Length: gmars.Address(length), Distance: gmars.Address(length)}
 	}
 	if fixed != 0 {
 		vSetFlagInt("F", fixed)
